@@ -333,6 +333,27 @@ def stepLine (st : DState) (line : String) : DState × String :=
     | none => bad
   | ["widths"] => res st widthsStr
   | ["premain"] => res st premainStr
+  -- round 3b: igris::dlist::is_correct() on a hand-corrupted 4-node ring (head 0, elements 1 2 3):
+  -- mode 0 untouched, 1 lasso (3->next = 2), 2 prev := copy of next, 3 one wrong back link (2->prev = 0), 4 only the head's back link wrong (0->prev = 1)
+  -- round 3b: two list heads in ONE ring spliced into each other (theorem `splice_same_ring`): list L (head 0) holds
+  -- 1 2 3, the head of list O (node 4) is moved in front of node m (m = 0: in front of L's head), then
+  -- L.unlink_and_move_all_nodes_from_other(O)
+  | ["xsplice_same", m] => match nat? m with
+    | some m =>
+      let h0 : Heap := ⟨fun x => x, fun x => x⟩
+      let h1 := nodeMovePrevThan (nodeMovePrevThan (nodeMovePrevThan h0 1 0) 2 0) 3 0
+      let h2 := nodeMovePrevThan h1 4 m
+      let h3 := listSplice h2 0 4
+      let c := if cppIsCorrectStrict h3 FUEL 0 && cppIsCorrectStrict h3 FUEL 4 then "1" else "0"
+      let e := if h3.next 4 = 4 then "1" else "0"
+      res st s!"{ids (dlistToList h3 FUEL 0)} {ids (dlistToListRev h3 FUEL 0)} {e} {circularSize h3 FUEL 0 - 1} {c}"
+    | none => bad
+  | ["xcorrect_poke", m] => match nat? m with
+    | some m =>
+      let nx : Nat → Nat := fun x => if x < 4 then (if m == 1 && x == 3 then 2 else (x + 1) % 4) else x
+      let pv : Nat → Nat := fun x => if x < 4 then (if m == 2 then (x + 1) % 4 else if m == 3 && x == 2 then 0 else if m == 4 && x == 0 then 1 else (x + 3) % 4) else x
+      res st (if cppIsCorrectStrict ⟨nx, pv⟩ FUEL 0 then "1" else "0")
+    | none => bad
   | ["mmac", _, i] => match nat? i with
     | some i => res st (mmacStr i)
     | none => bad
@@ -359,8 +380,8 @@ def stepLine (st : DState) (line : String) : DState × String :=
       | "csize" => res st (toString (dlistSizeL st.h (max FUEL (st.n + 2)) a))
       | "csize_rev" => res st (toString (dlistSizeReversedL st.h (max FUEL (st.n + 2)) a))
       | "cempty" => res st (if dlistEmpty st.h a then "1" else "0")
-      | "ccorrect" => res st (if dlistIsCorrect st.h a then "1" else "0")
-      | "ccorrect_strict" => res st (if dlistIsCorrect st.h a then "1" else "0")
+      | "ccorrect" => res st (if dlistIsCorrectStrict st.h a then "1" else "0")
+      | "ccorrect_strict" => res st (if dlistIsCorrectStrict st.h a then "1" else "0")
       | "clist" => res st (ids (dlistToList st.h FUEL a))
       | "clist_rev" => res st (ids (dlistToListRev st.h FUEL a))
       | "xnew" => res { st with h := nodeCtor st.h a, alive := a :: st.alive } "ok"
@@ -375,7 +396,7 @@ def stepLine (st : DState) (line : String) : DState × String :=
       | "xsize" => res st (toString (circularSize st.h FUEL a - 1))
       | "xempty" => res st (if st.h.next a ≠ a then "0" else "1")
       | "xlinked" => res st (if st.h.next a ≠ a then "1" else "0")
-      | "xcorrect" => res st (if circularSize st.h FUEL a == reverseCircularSize st.h FUEL a then "1" else "0")
+      | "xcorrect" => res st (if cppIsCorrectStrict st.h FUEL a then "1" else "0")
       | "xiter" => res st (ids (dlistToList st.h FUEL a))
       | "xriter" => res st (ids (dlistToListRev st.h FUEL a))
       | "xround_left" => res { st with h := listRoundLeft st.h a } "ok"
